@@ -33,6 +33,7 @@ def step (st : DState) (line : String) : DState × String :=
   | "catom" :: args => (st, concHandle "catom" args)
   | "cvec" :: args => (st, concHandle "cvec" args)
   | "chist" :: args => (st, concHandle "chist" args)
+  | "creg" :: args => (st, concHandle "creg" args)
   | "fall" :: "lin" :: args => (st, clsOfText (histHandle ("lin" :: args)))
   | "fall" :: "exp" :: args => (st, clsOfText (histHandle ("exp" :: args)))
   | "fall" :: args => (st, fallHandle args)
